@@ -67,6 +67,7 @@ class GuardMap:
 
     def __init__(self, fn: ast.AST):
         self.fn = fn
+        self._aliases: Optional[Dict[str, ast.AST]] = None
         self.conds: Dict[int, List[Cond]] = {}
         self.early: Set[Tuple[int, bool]] = set()   # ids of tests that are in a path condition because an earlier branch always exits
         self.loops: Dict[int, List[ast.stmt]] = {}
@@ -144,8 +145,49 @@ class GuardMap:
             child, n = n, getattr(n, "_parent", None)
         return out + list(reversed(inner))
 
-    def formula(self, node: ast.AST, env: Optional[G.GuardEnv] = None, skip_early: bool = False):
-        """path condition; skip_early drops conjuncts that only say 'an earlier branch did not exit'"""
+    def aliases(self) -> Dict[str, ast.AST]:
+        """single-assignment locals bound to a side-effect-free expression (substituted into guard atoms so that
+        `attrs = rule["attrs"]; if attrs["global"]` and `if rule["attrs"]["global"]` give the same atom)"""
+        if self._aliases is None:
+            stores: Dict[str, int] = {}
+            for n in walk_no_nested(self.fn):
+                if isinstance(n, ast.Name) and isinstance(n.ctx, (ast.Store, ast.Del)):
+                    stores[n.id] = stores.get(n.id, 0) + 1
+            params = set()
+            if isinstance(self.fn, FuncT):
+                a = self.fn.args
+                params = {x.arg for x in a.args + a.kwonlyargs + a.posonlyargs}
+            out: Dict[str, ast.AST] = {}
+            SAFE = ("startswith", "endswith", "get", "strip", "lower", "keys", "items", "values", "count")
+            for n in walk_no_nested(self.fn):
+                if isinstance(n, ast.Assign) and len(n.targets) == 1 and isinstance(n.targets[0], ast.Name):
+                    x = n.targets[0].id
+                    if stores.get(x) != 1 or x in params:
+                        continue
+                    v = n.value
+                    bad = False
+                    for m in ast.walk(v):
+                        if isinstance(m, (ast.Yield, ast.YieldFrom, ast.Await, ast.NamedExpr, ast.Lambda, ast.ListComp, ast.SetComp, ast.DictComp, ast.GeneratorExp, ast.List, ast.Dict, ast.Set)):
+                            bad = True
+                        if isinstance(m, ast.Call):
+                            nm = m.func.id if isinstance(m.func, ast.Name) else (m.func.attr if isinstance(m.func, ast.Attribute) else None)
+                            if not ((isinstance(m.func, ast.Name) and nm in ("bool", "len", "tuple", "str", "int")) or (isinstance(m.func, ast.Attribute) and nm in SAFE)):
+                                bad = True
+                        if isinstance(m, ast.Name) and isinstance(m.ctx, ast.Load) and stores.get(m.id, 0) > 1:
+                            bad = True
+                    if not bad:
+                        out[x] = v
+            self._aliases = out
+        return self._aliases
+
+    def formula(self, node: ast.AST, env: Optional[G.GuardEnv] = None, skip_early: bool = False, alias: bool = False):
+        """path condition; skip_early drops conjuncts that only say 'an earlier branch did not exit';
+        alias=True substitutes single-assignment pure locals into the atoms'"""
+        env = env or G.GuardEnv()
+        if alias:
+            merged = dict(self.aliases())
+            merged.update(env.subst or {})
+            env = G.GuardEnv(subst=merged, rename=env.rename)
         return G.And(*[(G.formula(t, env) if pol else G.Not(G.formula(t, env))) for t, pol in self.of(node)
                        if not (skip_early and (id(t), pol) in self.early)])
 
